@@ -13,10 +13,13 @@
 //                              OK <key>=<pattern>;...      (sorted by key; found through lookup_canonical over all 65536 keys)
 //   rw api <ops> <sinks>       build an AIG through the public API, rewrite it:
 //   rw raw <nodes> <sinks>     push the given nodes directly, rewrite it:
-//                              OK <aig before> | <aig after>
+//                              OK <aig before> | <aig after> | <library of this process, as `lib`>
+//   tm api|raw <ops|nodes> <sinks> [rw]   technology-map a generated AIG (after rewrite when `rw` is given) into a
+//                              synthetic module whose input port bits are the origins and output port bits the targets:
+//                              OK <aig> | <aig_to_cells_techmap netlist> | <aig_to_cells netlist>
 //   synth <hex utf8 source> <top>   parse+analyze+build_gate_ir (default library/RamConfig), then
 //                              A = aigify(G0); A' = rewrite(A); G1 = aig_to_cells_techmap(A', G0); G2 = aig_to_cells(A, G0)
-//                              OK G0 | A | A' | G1 | G2          (ERR <stage> when the design is rejected)
+//                              OK G0 | A | A' | G1 | G2 | <library>   (ERR <stage> when the design is rejected)
 //
 // pattern:  <ands>/<out>   ands = a.n.b.n joined by ',' ('-' when empty), n = 0|1 negated;  out = node.n
 // aig:      nodes joined by ',' : c | i<origin> | a<raw edge>.<raw edge>      sinks joined by ',' : <target>:<raw edge>  ('-' = none)
@@ -41,7 +44,9 @@ use veryl_synthesizer::aig::npn4::{
 use veryl_synthesizer::aig::rewrite::rewrite;
 use veryl_synthesizer::aig::techmap::aig_to_cells_techmap;
 use veryl_synthesizer::build_gate_ir;
-use veryl_synthesizer::ir::{ClockEdge, GateModule, NetDriver, PortDir, ResetPolarity};
+use veryl_synthesizer::ir::{
+    ClockEdge, GateModule, GatePort, NetDriver, NetInfo, PortDir, ResetPolarity,
+};
 
 fn panic_msg(p: Box<dyn std::any::Any + Send>) -> String {
     p.downcast_ref::<String>()
@@ -352,6 +357,26 @@ fn analyze(code: &str, top: &str) -> Result<(air::Ir, resource_table::StrId), St
     Ok((ir, resource_table::insert_str(top)))
 }
 
+/// The process-wide pattern library as seen through lookup_canonical (its content depends on the
+/// HashMap iteration order of this process: ties between equally small patterns are broken by it).
+fn lib_text() -> String {
+    static TXT: std::sync::OnceLock<String> = std::sync::OnceLock::new();
+    TXT.get_or_init(|| {
+        let mut items = Vec::new();
+        for k in 0..=65535u16 {
+            if let Some(p) = lookup_canonical(k) {
+                items.push(format!("{}={}", k, show_pattern(p)));
+            }
+        }
+        if items.is_empty() {
+            "-".to_string()
+        } else {
+            items.join(";")
+        }
+    })
+    .clone()
+}
+
 fn run(line: &str) -> String {
     let t: Vec<&str> = line.split_whitespace().collect();
     match t[0] {
@@ -391,15 +416,7 @@ fn run(line: &str) -> String {
             let q = transform_pattern(&p, tr);
             format!("OK {} {} {}", show_pattern(&q), p.tt(), q.tt())
         }
-        "lib" => {
-            let mut items = Vec::new();
-            for k in 0..=65535u16 {
-                if let Some(p) = lookup_canonical(k) {
-                    items.push(format!("{}={}", k, show_pattern(p)));
-                }
-            }
-            format!("OK {}", items.join(";"))
-        }
+        "lib" => format!("OK {}", lib_text()),
         "rw" => {
             let a = match t[1] {
                 "api" => build_api(t[2], t[3]),
@@ -407,7 +424,67 @@ fn run(line: &str) -> String {
             };
             let before = show_aig(&a);
             let b = rewrite(&a);
-            format!("OK {} | {}", before, show_aig(&b))
+            format!("OK {} | {} | {}", before, show_aig(&b), lib_text())
+        }
+        "tm" => {
+            // technology mapping of a generated AIG: every input origin is an input-port bit, every
+            // sink target an output-port bit of a synthetic one-port-per-direction module
+            let a = match t[1] {
+                "api" => build_api(t[2], t[3]),
+                _ => build_raw(t[2], t[3]),
+            };
+            let a2 = if t.len() > 4 && t[4] == "rw" { rewrite(&a) } else { a };
+            let mut max_net: u32 = 1;
+            let mut in_nets: Vec<u32> = Vec::new();
+            for n in &a2.nodes {
+                if let AigNode::Input { origin } = n {
+                    if !in_nets.contains(origin) {
+                        in_nets.push(*origin);
+                    }
+                    max_net = max_net.max(*origin);
+                }
+            }
+            let out_nets: Vec<u32> = a2.sinks.iter().map(|s| s.target).collect();
+            for &n in &out_nets {
+                max_net = max_net.max(n);
+            }
+            let mut nets: Vec<NetInfo> = (0..=max_net)
+                .map(|_| NetInfo {
+                    driver: NetDriver::Undriven,
+                    origin: None,
+                })
+                .collect();
+            nets[0].driver = NetDriver::Const(false);
+            nets[1].driver = NetDriver::Const(true);
+            for &n in &in_nets {
+                nets[n as usize].driver = NetDriver::PortInput;
+            }
+            let pi = resource_table::insert_str("pi");
+            let po = resource_table::insert_str("po");
+            let orig = GateModule {
+                name: None,
+                ports: vec![
+                    GatePort {
+                        name: pi,
+                        path: vec![pi],
+                        dir: PortDir::Input,
+                        nets: in_nets.clone(),
+                    },
+                    GatePort {
+                        name: po,
+                        path: vec![po],
+                        dir: PortDir::Output,
+                        nets: out_nets.clone(),
+                    },
+                ],
+                nets,
+                cells: Vec::new(),
+                ffs: Vec::new(),
+                ram_blocks: Vec::new(),
+            };
+            let g1 = aig_to_cells_techmap(&a2, &orig);
+            let g2 = aig_to_cells(&a2, &orig);
+            format!("OK {} | {} | {}", show_aig(&a2), ser_gate(&g1), ser_gate(&g2))
         }
         "synth" => {
             let src = unhex(t[1]);
@@ -424,12 +501,13 @@ fn run(line: &str) -> String {
             let g1 = aig_to_cells_techmap(&a2, &g0);
             let g2 = aig_to_cells(&a, &g0);
             format!(
-                "OK {} | {} | {} | {} | {}",
+                "OK {} | {} | {} | {} | {} | {}",
                 ser_gate(&g0),
                 show_aig(&a),
                 show_aig(&a2),
                 ser_gate(&g1),
-                ser_gate(&g2)
+                ser_gate(&g2),
+                lib_text()
             )
         }
         _ => format!("ERR unknown command {}", t[0]),
